@@ -705,3 +705,24 @@ async fn handle_task_with_signals<F: Future<Output = tako::Result<TaskResult>>>(
         }
     }
 }
+
+/// Verification hooks (add-only, feature `verif`): expose the private stdio forwarder.
+#[cfg(feature = "verif")]
+pub mod verif {
+    use crate::transfer::stream::ChannelId;
+    use crate::worker::streamer::StreamSender;
+    use tako::TaskId;
+
+    /// The buffer size `resend_stdio` reads with.
+    pub const STDIO_BUFFER_SIZE: usize = super::STDIO_BUFFER_SIZE;
+
+    /// The real `resend_stdio`.
+    pub async fn resend_stdio(
+        task_id: TaskId,
+        channel: ChannelId,
+        stdio: Option<impl tokio::io::AsyncRead + Unpin>,
+        stream: StreamSender,
+    ) -> tako::Result<()> {
+        super::resend_stdio(task_id, channel, stdio, stream).await
+    }
+}
